@@ -106,6 +106,47 @@ def walk(e, anc=()):
             yield from walk(c, a2)
 
 
+def guards(chain):
+    """chain = ancestors + (node,): the conditions under which node executes, outermost first.
+    Items: ('if', cond_expr, True|False)  |  ('match', scrut_expr, arm)  |  ('loop', node)  |  ('closure', node)"""
+    out = []
+    for i in range(len(chain) - 1):
+        a, nxt = chain[i], chain[i + 1]
+        k = a.get('k')
+        if k == 'if':
+            if nxt is a.get('then'):
+                out.append(('if', a['cond'], True))
+            elif nxt is a.get('else'):
+                out.append(('if', a['cond'], False))
+        elif k == 'match':
+            for arm in a['arms']:
+                if nxt is arm['body'] or nxt is arm.get('guard'):
+                    out.append(('match', a['scrut'], arm))
+        elif k in ('loop', 'for'):
+            out.append(('loop', a))
+        elif k == 'closure':
+            out.append(('closure', a))
+        elif k == 'let' and nxt is a.get('else'):
+            out.append(('letelse', a))
+    return out
+
+
+def strip_not(c):
+    """(inner expr, polarity) with leading `!` removed"""
+    pol = True
+    while isinstance(c, dict) and c.get('k') == 'unary' and c.get('op') == 'Not':
+        c = c['e']
+        pol = not pol
+    return c, pol
+
+
+def conjuncts(c):
+    """split `a && b && let P = e` into its conjuncts"""
+    if isinstance(c, dict) and c.get('k') == 'binary' and c.get('op') == 'And':
+        return conjuncts(c['l']) + conjuncts(c['r'])
+    return [c]
+
+
 def pat_binds(p, out=None):
     """names bound by a pattern"""
     if out is None:
